@@ -171,7 +171,23 @@ class C15(Engine):
 		return {'pool': pool, 'ops': ops, 'kind': 'seeded'}
 
 	def execute(self, case: dict[str, Any]) -> dict[str, Any]:
+		if case.get('kind') == 'truncation':
+			return self.execute_truncation(case)
 		return C15Runner(case).execute()
+
+	def execute_truncation(self, case: dict[str, Any]) -> dict[str, Any]:
+		proj = Project(case['pool'], tag='c15trunc')
+		try:
+			rec = proj.run(force=True)
+			files = [f for f in proj.cache_files() if file_class(f) == 'tree' and f.split('/')[-1].split('-')[0] == case['module_file'] and f.rsplit('/', 1)[0].endswith(case.get('module_dir', ''))]
+			vs = []
+			for rel in files[:1]:
+				r = sim_process(proj.sc.root, load_truncated_task(rel, [case['offset']], case['zeros']), timeout=120)
+				if r['status'] == 'ok' and r['result']['bad']:
+					vs.append({'class': 'truncated-tree-loads', 'detail': {'file': rel, 'offset': case['offset'], 'size': r['result']['size'], 'zeros': case['zeros']}, 'known': None, 'sig': 'truncation'})
+			return {'violations': vs, 'counters': {}, 'distinct': [], 'states': [], 'log': '', 'processes': 2, 'sim_time_s': 0.0}
+		finally:
+			proj.destroy()
 
 	def minimise(self, case: dict[str, Any], vclass: str) -> dict[str, Any]:
 		def fails(ops: list[dict[str, Any]]) -> bool:
@@ -207,7 +223,7 @@ class C15(Engine):
 					for k, n in res['classes'].items():
 						classes[k] = classes.get(k, 0) + n
 					for k in res['bad']:
-						out.append({'label': 'enum', 'case': {'kind': 'truncation', 'file_class': 'tree', 'module_file': rel.split('/')[-1].split('-')[0], 'offset': k, 'zeros': zeros, 'pool': pool, 'ops': []},
+						out.append({'label': 'enum', 'case': {'kind': 'truncation', 'file_class': 'tree', 'module_file': rel.split('/')[-1].split('-')[0], 'module_dir': rel.rsplit('/', 1)[0].split('.cache/tranp')[-1].strip('/'), 'offset': k, 'zeros': zeros, 'pool': pool, 'ops': []},
 							'violation': {'class': 'truncated-tree-loads', 'detail': {'file': rel, 'offset': k, 'size': res['size'], 'zeros': zeros}, 'sig': 'truncation'}})
 			ev.coverage['truncation_pass'] = {'files': len(files), 'loads': total, 'raised': classes, 'loaded_anyway': len(out)}
 			ev.bump('faults_fired', 'torn-write(truncated tree file)', total)
